@@ -1,6 +1,7 @@
 package config
 
 import (
+	"encoding/json"
 	"fmt"
 	"reflect"
 )
@@ -23,6 +24,23 @@ func (c *Config) verify() error {
 	}
 
 	return nil
+}
+
+// Verifies the configuration as it would be read back from the config file, i.e. without any
+// command-line overwrites. verify() only sees the effective values, so a stored value that is
+// masked by an overwrite would otherwise never be checked until the next start without the flag.
+func (c *Config) verifyStored() error {
+	data, err := json.Marshal(c)
+	if err != nil {
+		return fmt.Errorf("failed to encode config for verification: %w", err)
+	}
+
+	var stored Config
+	if err := json.Unmarshal(data, &stored); err != nil {
+		return fmt.Errorf("stored config would not load: %w", err)
+	}
+
+	return stored.verify()
 }
 
 func checkIsSetRecursive(val reflect.Value) error {
